@@ -320,7 +320,15 @@ func (s *Service) AddMachine(ctx context.Context, specName, id, nodeName string,
 		Bs:         m.State.Bs,
 	}
 
-	return s.store.WriteState(ctx, s.crewName, []*MachineState{&ms})
+	if err := s.store.WriteState(ctx, s.crewName, []*MachineState{&ms}); err != nil {
+		// The machine was not stored, so it does not exist.
+		c.Lock()
+		delete(c.Machines, id)
+		c.Unlock()
+		return err
+	}
+
+	return nil
 }
 
 func (s *Service) RemMachine(ctx context.Context, mid string) error {
@@ -331,11 +339,15 @@ func (s *Service) RemMachine(ctx context.Context, mid string) error {
 
 	// ToDo: Remove timers?
 
+	if err := s.store.WriteState(ctx, s.crewName, []*MachineState{&ms}); err != nil {
+		return err
+	}
+
 	s.crew.Lock()
 	delete(s.crew.Machines, mid)
 	s.crew.Unlock()
 
-	return s.store.WriteState(ctx, s.crewName, []*MachineState{&ms})
+	return nil
 }
 
 func (s *Service) Route(ctx context.Context, msg interface{}) ([]string, bool, error) {
